@@ -1,6 +1,8 @@
 (** Cache/Run.v — harness entry points of the cache models.
     cache_history : cfg doc streams appf imgc flat calls   ->  one field per call (o<dec> | e<dec> | p | f)
-    schedule      : ccfg doc programs schedule             ->  one field per thread, or Panic 99 = process abort *)
+    schedule      : ccfg doc programs schedule             ->  one field per thread, or Panic 99 = process abort
+                    (programs: one row of references per thread, every call is get::<Node<0>>)
+    tschedule     : the same with typed programs: one row "ty r ty r …" per thread *)
 From PdfV Require Import Base.Prelude Gen.Generated Cache.Model Cache.Node Cache.Conc.
 
 Definition field (fs : list bytes) (i : nat) : bytes := nth i fs [].
@@ -74,16 +76,20 @@ Definition show_thread (g : gstate) (t : tid) : bytes :=
 
 Definition SCHED_FUEL : nat := 4000.
 
-Definition run_schedule (fs : list bytes) : res (list bytes) :=
+Definition run_sched_gen (fs : list bytes) (progs : list (list tcall)) : res (list bytes) :=
   let cf := field fs 0 in
   let c := mkCcfg (bit cf 0) (bit cf 1) (bit cf 2) in
   let doc := doc_of (field fs 1) in
-  let progs := map nums (split 10 (field fs 2)) in
   let sched := map N.to_nat (nums (field fs 3)) in
   let n := length progs in
-  let prog := fun r => node_prog doc 0 r in
+  let prog := node_prog doc in
   let g := complete c prog SCHED_FUEL n (run_sched c prog (ginit progs) sched) in
-  let g := g in
   if aborted g then Panic 99
   else if negb (all_finished g n) && (match first_enabled c g n O with Some _ => true | None => false end) then OutOfFuel
   else Ok (map (show_thread g) (seq 0 n)).
+
+Definition run_schedule (fs : list bytes) : res (list bytes) :=
+  run_sched_gen fs (map (fun row => map (fun r => (0, r)) (nums row)) (split 10 (field fs 2))).
+
+Definition run_tschedule (fs : list bytes) : res (list bytes) :=
+  run_sched_gen fs (map (fun row => pairs (nums row)) (split 10 (field fs 2))).
